@@ -559,7 +559,7 @@ def strategy(tier, kinds=None):
             seq = list(seq)
             return seq[draw(st.integers(0, len(seq) - 1))]
 
-        kind = pick(kinds or (['efc'] * 6 + ['ifc'] * 5 + ['jex'] * 3 + ['jim'] * 2))
+        kind = pick(kinds or (['efc'] * 5 + ['ifc'] * 4 + ['jex'] * 3 + ['jim'] * 4))
         implicit = kind in ('ifc', 'jim')
         method = pick(['cs', 'cs', 'cs', 'fd', 'jax']) if kind in ('efc', 'ifc') else 'jax'
         names = list(draw(st.permutations(NAMES)))
@@ -574,8 +574,6 @@ def strategy(tier, kinds=None):
 
         ins = []
         nin = pick([1, 2, 2, 3])
-        if kind == 'efc' and method == 'jax' and nin == 1 and draw(st.integers(0, 3)) != 0:
-            nin = 2          # a single differentiable argument hits F-C34-5
         for _ in range(nin):
             shp = pick(pool)
             a, b = vals(shp)
